@@ -23,6 +23,9 @@ import (
 
 var capFile *os.File
 
+// recentFrags holds whole passwords returned by the last few calls in this process.
+var recentFrags []string
+
 // capture runs f with file descriptors 1 and 2 redirected to a file; this also
 // catches the log package and the println builtin.
 func capture(f func()) []byte {
@@ -110,10 +113,10 @@ var c18Chars = []string{"Q", "J", "K", "Z", "X", "V", "W", "q", "j", "z", "@", "
 func c18Run(c c18Case) error {
 	var diagSeen, rejected bool
 	type one struct {
-		capt   string
-		pw     *spg.Password
-		frags  []string
-		draws  int
+		capt  string
+		pw    *spg.Password
+		frags []string
+		draws int
 	}
 	run := func(key uint64) (one, error) {
 		var o outcome
@@ -176,7 +179,31 @@ func c18Run(c c18Case) error {
 					extra = append(extra, w) // list words are secrets-in-waiting too
 				}
 			}
-			capt = capture(func() { o = callRaw(&tape.Tape{TailKey: key | 1, Cap: 1 << 20}, r.Generate) })
+			if c.AllFail {
+				// constant index choices: separator recipes with a requirement then
+				// reject every candidate (run 1: index 0 everywhere, run 2: last index)
+				first := key == c.Key1
+				capt = capture(func() {
+					o = callForced(nil, func(k int, n uint32) uint32 {
+						if first {
+							return 0
+						}
+						return n - 1
+					}, key, r.Generate)
+				})
+				if c.WL.Sep.Kind == "func" {
+					ab := c.WL.Sep.Recipe.Alphabet()
+					if len(ab) > 0 && c.WL.Sep.Recipe.Length >= 2 {
+						ch := ab[0]
+						if !first {
+							ch = ab[len(ab)-1]
+						}
+						extra = append(extra, strings.Repeat(ch, c.WL.Sep.Recipe.Length)) // the rejected separator candidate
+					}
+				}
+			} else {
+				capt = capture(func() { o = callRaw(&tape.Tape{TailKey: key | 1, Cap: 1 << 20}, r.Generate) })
+			}
 			capt = append(c0, capt...)
 			c2 := capture(func() {
 				defer func() { recover() }()
@@ -204,6 +231,25 @@ func c18Run(c c18Case) error {
 	b, err := run(c.Key2)
 	if err != nil {
 		return err
+	}
+	// secrets of earlier calls must not surface in later diagnostics either
+	for _, r := range []one{a, b} {
+		plain := reStamp.ReplaceAllString(r.capt, "")
+		for _, f := range recentFrags {
+			if len(f) >= 6 && strings.Contains(plain, f) {
+				return fmt.Errorf("a fragment %q of a password returned by an EARLIER call appears in later diagnostic output %q", f, trunc(plain, 300))
+			}
+		}
+	}
+	for _, r := range []one{a, b} {
+		if r.pw != nil {
+			if s := r.pw.String(); oracle.NChars(s) >= 6 {
+				recentFrags = append(recentFrags, s)
+			}
+		}
+	}
+	if len(recentFrags) > 16 {
+		recentFrags = recentFrags[len(recentFrags)-16:]
 	}
 	runs := []one{a, b}
 	for i, r := range runs {
@@ -293,6 +339,7 @@ func c18Gen(t *rapid.T) c18Case {
 			w.Sep = gen.SepSpec{Kind: "func", Recipe: &r}
 		}
 		c.WL = &w
+		c.AllFail = rapid.IntRange(0, 2).Draw(t, "wl_forced") == 0
 	}
 	return c
 }
